@@ -168,20 +168,28 @@ def histories(draw, max_atoms=6, max_frames=200, max_sites=8, tier='quick'):
     dwell = st.sampled_from([1, 1, 1, 2, 3, 5, 10, 50])
     states, inner = [], []
     for _a in range(n_atoms):
-        mode = draw(st.sampled_from(['mixed', 'mixed', 'mixed', 'never-inner', 'constant', 'inner-only']))
+        modes = ['mixed', 'mixed', 'mixed', 'never-inner', 'inner-only']
+        mode = draw(st.sampled_from(modes if _a == 0 else modes + ['constant']))
         col = []
         if mode == 'constant':
             col = [syms[draw(st.integers(0, len(syms) - 1))]] * T
         elif mode == 'inner-only':
             s = draw(st.integers(0, n_sites - 1))
+            flip = draw(st.booleans())
             while len(col) < T:
-                col.extend([(s, draw(st.sampled_from([s, -1])))] * draw(dwell))
+                flip = not flip
+                col.extend([(s, s if flip else -1)] * (draw(dwell) if col else draw(st.integers(1, T - 1))))
         else:
+            last = None
             while len(col) < T:
-                sym = syms[draw(st.integers(0, len(syms) - 1))]
+                k = draw(st.integers(0, len(syms) - (1 if last is None else 2)))
+                if last is not None and k >= last:
+                    k += 1  # consecutive segments always differ
+                last = k
+                sym = syms[k]
                 if mode == 'never-inner':
                     sym = (sym[0], -1)
-                col.extend([sym] * draw(dwell))
+                col.extend([sym] * (draw(dwell) if col else draw(st.integers(1, T - 1))))
         col = col[:T]
         states.append([c[0] for c in col])
         inner.append([c[1] for c in col])
